@@ -259,8 +259,11 @@ type dbRun struct {
 	n   int64 // entries written to the stream
 }
 
+// memRatio > 0 configures a memory cap, which makes forced flushes sort their output (emsort)
+var memRatio float64
+
 func openDB(dir string, t *jTable, name string) (*zenodb.DB, error) {
-	db, err := zenodb.NewDB(&zenodb.DBOpts{Dir: dir, VirtualTime: true, IterationCoalesceInterval: time.Millisecond,
+	db, err := zenodb.NewDB(&zenodb.DBOpts{Dir: dir, VirtualTime: true, IterationCoalesceInterval: time.Millisecond, MaxMemoryRatio: memRatio,
 		Panic: quietPanic})
 	if err != nil {
 		return nil, err
